@@ -517,7 +517,7 @@ type CommonTableExpression struct {
 }
 
 func (node *CommonTableExpression) Format(buf *TrackedBuffer) {
-	buf.Myprintf("%s AS (%v)", node.Name, node.Select)
+	buf.Myprintf("%v AS (%v)", node.Name, node.Select)
 }
 
 func (node *CommonTableExpression) walkSubtree(visit Visit) error {
